@@ -31,9 +31,9 @@ fn check_header(h: &PDUHeader, payload: &PDUPayload, t: PDUType) {
 }
 
 // ---------------------------------------------------------------- NAK range splitting and de-duplication
-// ★ The NAK arm of `process_pdu` (flat_map / step_by / collect / VecDeque::extend / HashSet) does not finish with
-// fully symbolic 64-bit ranges. The request STARTS are concrete per instance, the ENDS are symbolic within two
-// segments of the start (empty, shorter than a segment, exactly one, longer than one); segment size 4.
+// ★ The NAK arm of `process_pdu` (flat_map / step_by / collect / VecDeque::extend / HashSet) does not finish when
+// the NUMBER of pieces is symbolic (rule 8). The base offset of the requests is symbolic (any 64-bit value below
+// 2^62), their positions relative to it and their lengths are concrete per instance; segment size 4.
 fn expected_pieces(r: &[(u64, u64)], want: &mut [(u64, u64); 8]) -> usize {
     let seg = 4u64;
     let mut nw = 0;
@@ -78,24 +78,25 @@ fn expected_pieces(r: &[(u64, u64)], want: &mut [(u64, u64); 8]) -> usize {
     }
     nw
 }
-fn nak_split(starts: &[u64]) {
+fn nak_split(rel: &[(u64, u64)], fixed_base: Option<u64>) {
     let ch = chans();
     let mut t0 = sender(0, 4, VSendState::SendEof, &ch);
+    let base: u64 = match fixed_base {
+        Some(b) => b,
+        None => kani::any(),
+    };
+    kani::assume(base < (1 << 62));
     let mut reqs = Vec::new();
-    let mut r = [(0u64, 0u64); 2];
     let mut i = 0;
-    while i < starts.len() {
-        let s = starts[i];
-        let len: u64 = kani::any();
-        kani::assume(len <= 8);
-        r[i] = (s, s + len);
-        reqs.push(SegmentRequestForm { start_offset: s, end_offset: s + len });
+    while i < rel.len() {
+        // same-expression starts/ends (base + constant) keep equal requests syntactically equal
+        reqs.push(SegmentRequestForm { start_offset: base + rel[i].0, end_offset: base + rel[i].1 });
         i += 1;
     }
-    let nak = NegativeAcknowledgmentPDU { start_of_scope: 0, end_of_scope: 64, segment_requests: reqs };
+    let nak = NegativeAcknowledgmentPDU { start_of_scope: 0, end_of_scope: u64::MAX, segment_requests: reqs };
     t0.process_pdu(directive(TransmissionMode::Acknowledged, Direction::ToSender, Operations::Nak(nak))).unwrap();
     let mut want = [(0u64, 0u64); 8];
-    let nw = expected_pieces(&r[..starts.len()], &mut want);
+    let nw = expected_pieces(rel, &mut want);
     // read the queue at concrete indices through its contiguous slice
     let (q, tail) = t0.verif_naks().as_slices();
     assert!(tail.is_empty());
@@ -103,22 +104,34 @@ fn nak_split(starts: &[u64]) {
     let mut j = 0;
     while j < 6 {
         if j < nw && j < q.len() {
-            assert!(q[j].start_offset == want[j].0 && q[j].end_offset == want[j].1, "piece boundaries");
+            assert!(q[j].start_offset == base + want[j].0 && q[j].end_offset == base + want[j].1, "piece boundaries");
             assert!(q[j].end_offset - q[j].start_offset <= 4, "no piece longer than a segment");
         }
         j += 1;
     }
-    kani::cover!(nw >= 3, "split into three or more pieces");
-    kani::cover!(starts.len() == 2 && nw == 1, "duplicate removed");
+    kani::cover!(fixed_base.is_some() || base > (1 << 40), "large offsets");
     forget(t0);
     forget(ch);
 }
-//# funcs=SendTransaction::process_pdu(Nak); bound=1 request starting at 8 with a symbolic length 0..=8 (empty, partial, one or two segments), segment size 4; stubs=S1,S2,S3,S6
-th!(#[kani::stub(<std::hash::DefaultHasher as std::hash::Hasher>::finish, hasher_finish_stub)] c07_q_nak_split_1, 8, { nak_split(&[8]) });
-//# funcs=SendTransaction::process_pdu(Nak); bound=2 requests with the SAME start 0 (incl. the 0-0 metadata marker followed by the first lost segment) and symbolic lengths 0..=8; stubs=S1,S2,S3,S6
-th!(#[kani::stub(<std::hash::DefaultHasher as std::hash::Hasher>::finish, hasher_finish_stub)] c07_q_nak_split_same_start, 8, { nak_split(&[0, 0]) });
-//# funcs=SendTransaction::process_pdu(Nak); bound=2 requests, unsorted / overlapping starts (8, 4), symbolic lengths 0..=8; stubs=S1,S2,S3,S6
-th!(#[kani::stub(<std::hash::DefaultHasher as std::hash::Hasher>::finish, hasher_finish_stub)] c07_t_nak_split_overlap, 8, { nak_split(&[8, 4]) });
+// ★ Even with one symbolic quantity (the base offset) the arm did not finish in 10 minutes: `step_by` derives its trip
+// count from `(end - start) / step`, which stays symbolic. The quick instances are therefore CONCRETE executions of
+// the real arm (the solver decides nothing beyond what a unit test would; they are kept because no test of the
+// repository exercises these shapes); the symbolic-base instances live in the thorough tier.
+//# funcs=SendTransaction::process_pdu(Nak); bound=CONCRETE: 1 request of 7 bytes at offset 0 and at 2^40+1 (one full and one partial piece, segment size 4); stubs=S1,S2,S3,S6
+th!(#[kani::stub(<std::hash::DefaultHasher as std::hash::Hasher>::finish, hasher_finish_stub)] c07_q_nak_split_1, 8, {
+    nak_split(&[(0, 7)], Some(0));
+    nak_split(&[(0, 7)], Some((1 << 40) + 1));
+});
+//# funcs=SendTransaction::process_pdu(Nak); bound=CONCRETE: the 0-0 metadata marker followed by a request for bytes 0..3 (same start): both must be queued; stubs=S1,S2,S3,S6
+th!(#[kani::stub(<std::hash::DefaultHasher as std::hash::Hasher>::finish, hasher_finish_stub)] c07_q_nak_split_same_start, 8, { nak_split(&[(0, 0), (0, 3)], Some(0)) });
+//# funcs=SendTransaction::process_pdu(Nak); bound=CONCRETE: the same 3-byte request twice: queued once; stubs=S1,S2,S3,S6
+th!(#[kani::stub(<std::hash::DefaultHasher as std::hash::Hasher>::finish, hasher_finish_stub)] c07_q_nak_split_duplicate, 8, { nak_split(&[(0, 3), (0, 3)], Some(8)) });
+//# funcs=SendTransaction::process_pdu(Nak); bound=1 request of 7 bytes at a symbolic 64-bit offset < 2^62 (may be inconclusive: > 10 min); stubs=S1,S2,S3,S6
+th!(#[kani::stub(<std::hash::DefaultHasher as std::hash::Hasher>::finish, hasher_finish_stub)] c07_t_nak_split_1_symbolic_base, 8, { nak_split(&[(0, 7)], None) });
+//# funcs=SendTransaction::process_pdu(Nak); bound=empty + 3-byte request at the same symbolic offset (may be inconclusive: > 10 min); stubs=S1,S2,S3,S6
+th!(#[kani::stub(<std::hash::DefaultHasher as std::hash::Hasher>::finish, hasher_finish_stub)] c07_t_nak_split_same_start_symbolic_base, 8, { nak_split(&[(0, 0), (0, 3)], None) });
+//# funcs=SendTransaction::process_pdu(Nak); bound=CONCRETE: 2 overlapping, unsorted requests (4..12, 0..8); stubs=S1,S2,S3,S6
+th!(#[kani::stub(<std::hash::DefaultHasher as std::hash::Hasher>::finish, hasher_finish_stub)] c07_t_nak_split_overlap, 8, { nak_split(&[(4, 12), (0, 8)], Some(0)) });
 
 // ---------------------------------------------------------------- first pass
 fn first_pass(l: usize, s: u16, c: usize) {
@@ -168,11 +181,11 @@ fn first_pass(l: usize, s: u16, c: usize) {
     forget(ch);
 }
 // cursor, file length and segment size are concrete per instance (they decide buffer lengths); content symbolic
-//# funcs=SendTransaction::send_pdu(SendData),send_file_segment,get_file_segment,get_header; bound=5-byte file (content symbolic), segment size 2, cursor 0; stubs=S1,S2,S3,S5
+//# funcs=SendTransaction::send_pdu(SendData),send_file_segment,get_file_segment,get_header; bound=5-byte file (content symbolic), segment size 2, cursor 0; stubs=S1,S2,S3,S5; nocover=last segment
 th!(c07_q_first_pass_first, 12, { first_pass(5, 2, 0) });
-//# funcs=SendTransaction::send_pdu(SendData),get_file_segment,prepare_eof,get_checksum,FileChecksum::checksum; bound=5-byte file, segment size 2, cursor 4: short last segment, EOF armed with true size and checksum; stubs=S1,S2,S3,S5
+//# funcs=SendTransaction::send_pdu(SendData),get_file_segment,prepare_eof,get_checksum,FileChecksum::checksum; bound=5-byte file, segment size 2, cursor 4: short last segment, EOF armed with true size and checksum; stubs=S1,S2,S3,S5; nocover=middle segment
 th!(c07_q_first_pass_last, 12, { first_pass(5, 2, 4) });
-//# funcs=SendTransaction::send_pdu(SendData),prepare_eof; bound=empty file; stubs=S1,S2,S3,S5
+//# funcs=SendTransaction::send_pdu(SendData),prepare_eof; bound=empty file; stubs=S1,S2,S3,S5; nocover=middle segment
 th!(c07_q_first_pass_empty, 12, { first_pass(0, 2, 0) });
 //# funcs=SendTransaction::send_pdu(SendData); bound=5-byte file, segment size 2, cursor 2 (middle); stubs=S1,S2,S3,S5
 th!(c07_t_first_pass_middle, 12, { first_pass(5, 2, 2) });
@@ -214,16 +227,17 @@ fn retransmit(l: usize, s: u16, state: VSendState, a: u64, b: u64, c: usize) {
     assert!(t.verif_naks().is_empty(), "request consumed");
     assert!(file_pos(SRC) == c, "first-pass cursor restored");
     assert!(t.verif_progress() == before, "retransmission does not change the progress");
+    kani::cover!(true, "end");
     kani::cover!(hi - lo > 0 && (b as usize) > l, "range cut at EOF");
     kani::cover!(a as usize >= l, "range beyond EOF");
     forget(t);
     forget(ch);
 }
-//# funcs=SendTransaction::send_pdu(SendEof),send_missing_data,send_file_segment,get_file_segment; bound=5-byte file (content symbolic), queued piece (1,4) inside the file, cursor at EOF; stubs=S1,S2,S3,S5
+//# funcs=SendTransaction::send_pdu(SendEof),send_missing_data,send_file_segment,get_file_segment; bound=5-byte file (content symbolic), queued piece (1,4) inside the file, cursor at EOF; stubs=S1,S2,S3,S5; nocover=range cut at EOF|range beyond EOF
 th!(c07_q_retransmit_inside, 12, { retransmit(5, 3, VSendState::SendEof, 1, 4, 5) });
-//# funcs=SendTransaction::send_pdu(SendEof),send_missing_data,get_file_segment; bound=queued piece (3,6) cut at the end of the 5-byte file; stubs=S1,S2,S3,S5
+//# funcs=SendTransaction::send_pdu(SendEof),send_missing_data,get_file_segment; bound=queued piece (3,6) cut at the end of the 5-byte file; stubs=S1,S2,S3,S5; nocover=range beyond EOF
 th!(c07_q_retransmit_cut_at_eof, 12, { retransmit(5, 3, VSendState::SendEof, 3, 6, 5) });
-//# funcs=SendTransaction::send_pdu(SendData),send_missing_data; bound=NAK answered while the first pass is still running (cursor 2): piece (0,2); the first-pass cursor survives; stubs=S1,S2,S3,S5
+//# funcs=SendTransaction::send_pdu(SendData),send_missing_data; bound=NAK answered while the first pass is still running (cursor 2): piece (0,2); the first-pass cursor survives; stubs=S1,S2,S3,S5; nocover=range cut at EOF|range beyond EOF
 th!(c07_q_retransmit_during_first_pass, 12, { retransmit(5, 2, VSendState::SendData, 0, 2, 2) });
 //# funcs=SendTransaction::send_pdu(SendEof),send_missing_data; bound=queued piece (6,8) entirely beyond the end of file / empty piece (2,2); stubs=S1,S2,S3,S5
 th!(c07_t_retransmit_beyond_eof, 12, { retransmit(5, 3, VSendState::SendEof, 6, 8, 5) });
